@@ -82,6 +82,23 @@ class Leg(object):
 _WORK = {}
 
 
+_PROP = ['C??']
+
+
+def _library_frame(exc):
+    """'file:line in function' of the innermost frame inside the library under test, provided it lies BELOW the last
+    frame of this harness (i.e. the library raised while being called by a leg); None otherwise."""
+    repo = os.path.realpath(os.environ.get('PCVERIF_REPO', '/repo')) + os.sep
+    here = os.path.dirname(os.path.realpath(__file__)) + os.sep
+    frames = traceback.extract_tb(exc.__traceback__)
+    last_h = max([i for i, f in enumerate(frames) if os.path.realpath(f.filename).startswith(here)] or [-1])
+    inside = [f for f in frames[last_h + 1:] if os.path.realpath(f.filename).startswith(repo)]
+    if not inside:
+        return None
+    f = inside[-1]
+    return '%s:%d in %s' % (os.path.relpath(os.path.realpath(f.filename), repo), f.lineno, f.name)
+
+
 def _run_chunk(args):
     legname, idx = args
     fn, chunks = _WORK[legname]
@@ -93,8 +110,18 @@ def _run_chunk(args):
     try:
         res = fn(chunks[idx])
     except Exception as e:  # harness or library crash inside the sweep
-        res = {'n': 0, 'nt': 0, 'viol': [], 'error': '%s: %s\n%s' % (type(e).__name__, e, traceback.format_exc()),
-               'error_items': jsonable(chunks[idx])}
+        lib_frame = _library_frame(e)
+        if lib_frame is not None and not type(e).__name__ == 'Harness':
+            # the exception was raised inside the library under test (below the last harness frame) on an input the
+            # leg treats as valid and does not expect to be refused: that is a finding about the library, not about
+            # the harness.  (On the unchanged tree no leg gets here.)
+            item = chunks[idx][0] if chunks[idx] else None
+            res = {'n': 0, 'nt': 0, 'viol': [V('%s/%s/library-raises-%s' % (_PROP[0], legname, type(e).__name__), item,
+                                                'leg %s: the library raised %s: %s at %s on an input of the chunk starting with this item' % (
+                                                    legname, type(e).__name__, str(e)[:200], lib_frame))]}
+        else:
+            res = {'n': 0, 'nt': 0, 'viol': [], 'error': '%s: %s\n%s' % (type(e).__name__, e, traceback.format_exc()),
+                   'error_items': jsonable(chunks[idx])}
     res.setdefault('viol', [])
     res.setdefault('n', 0)
     res.setdefault('nt', 0)
@@ -140,6 +167,7 @@ def match_known(prop, v, known):
 class Run(object):
     def __init__(self, prop, tier, module):
         self.prop = prop
+        _PROP[0] = prop
         self.tier = tier
         self.module = module
         self.seed = int(os.environ.get('VERIF_SEED', '0') or 0)
@@ -353,7 +381,14 @@ def replay(path):
         print('replay: leg %s not found' % rp['leg'])
         return 2
     items = [rp['item']] if not rp['signature'].endswith('/timeout') else rp['item']
-    res = fn(items)
+    try:
+        res = fn(items)
+    except Exception as e:
+        where = _library_frame(e)
+        if where is None or type(e).__name__ == 'Harness':
+            raise
+        print('REPLAY-FAIL sig=%s: the library raised %s: %s at %s' % (rp['signature'], type(e).__name__, str(e)[:200], where))
+        return 1
     viol = res.get('viol', [])
     if viol:
         for v in viol[:5]:
